@@ -443,3 +443,44 @@ def gen_desc(rnd, ncmds=None, tools=("shell", "shell", "shell", "shell", "phony"
 def populate_sources(sb, desc, rnd):
     for s in getattr(desc, "sources", []):
         sb.write(s, "source %s v%d\n" % (s, rnd.randint(0, 9)))
+
+
+# ------------------------------------------------------------------ BuildSystemFrontend client (harness/bsdriver.cpp)
+DRIVER_LIBS = ["llbuildBuildSystem", "llbuildCore", "llbuildBasic", "llvmSupport"]
+
+
+def bsdriver_path(flavor="asan"):
+    return vlib.build_harness("bsdriver", flavor, ["bsdriver.cpp"], libs=DRIVER_LIBS)
+
+
+def drive(sb, binp, target=None, node=None, jobs=None, keep_going=False, cancel_on=None, twice=False, db="build.db", timeout=120):
+    """Build through the BuildSystemFrontend client; returns a BuildResult with .events (delegate callbacks and fs_remove calls)."""
+    ev = sb.p("events.jsonl")
+    if os.path.exists(ev):
+        os.unlink(ev)
+    cmd = [binp, "--events", ev]
+    if node is not None:
+        cmd += ["--node", node]
+    elif target:
+        cmd += ["--target", target]
+    if jobs:
+        cmd += ["--jobs", str(jobs)]
+    if keep_going:
+        cmd.append("--keep-going")
+    if cancel_on is not None:
+        cmd += ["--cancel-on-event", str(cancel_on)]
+    if twice:
+        cmd.append("--twice")
+    if db is None:
+        cmd.append("--no-db")
+    t0 = time.time()
+    rc, out, err, to = vlib.run_child(cmd, timeout, env={"BSCMD_LOG": sb.p("ran.log")}, cwd=sb.path)
+    r = BuildResult(rc, out, err, to, sb.ran_since(), time.time() - t0)
+    r.events = []
+    if os.path.exists(ev):
+        for l in open(ev, errors="replace"):
+            try:
+                r.events.append(json.loads(l))
+            except ValueError:
+                pass
+    return r
